@@ -3,4 +3,4 @@
    extracted inductives.  No Extract Constant. *)
 From Coq Require Import ExtrOcamlBasic.
 From DG Require Import Base.Util Base.Sexp Model.Graph Model.Walk Model.RunC15 Model.RunC02 Model.RunC14 Model.Prune Model.RunC17 Model.RunC18 Model.Builder Model.RunC01 Model.RunC19 Model.RunC05 Model.Version Model.RunC06 Model.Codec Model.RunC13 Model.Text Model.RunC20 Model.Packages Model.RunC07 Model.Symbols Model.RunC16 Model.TextPos Model.Pragma Model.RunC08 Model.Jsr Model.RunJsr Model.Decl Model.RunDecl Model.RunJsrAll Model.Lattice Model.FcClosure Model.RunC09 Model.FcDriver Model.RunC12 Model.FcSummary Model.FcTransform Model.RunC10 Model.RunC11.
-Extraction "model.ml" run_c15 run_c02 run_c14 run_c17 run_c18 run_c01 run_c19 run_c05 run_c06 run_c13 run_c20 run_c07 run_c16 run_c08 run_jsr run_decl run_c01j run_c03 run_c04 run_c05j run_c07j run_c06j run_c13j run_c09 run_c12 run_c10 run_c11.
+Extraction "model.ml" run_c15 run_c02 run_c14 run_c17 run_c18 run_c01 run_c19 run_c05 run_c06 run_c13 run_c20 run_c07 run_c16 run_c08 run_jsr run_decl run_decl_any run_c01j run_c03 run_c04 run_c05j run_c07j run_c06j run_c13j run_c09 run_c12 run_c10 run_c11.
